@@ -699,7 +699,7 @@ func init() {
 	fw.Register(&fw.Prop{
 		ID:    "C08",
 		Level: "exploration",
-		Rule: "each case is one seeded omnibus history (the C09 workload: bridge, jobs, pigeons, governance, hostile-but-accepted values, heights through 0 mod 10/50/300/303) executed by 4 (quick) / 6 (thorough) twin PROCESSES that differ only in: every environment variable the repository reads (names found by scanning os.Getenv/LookupEnv in the sources at check time) set vs unset plus TZ/GOMAXPROCS/GOGC/LANG, restarts of the application at random block boundaries, read-only traffic between blocks (queue queries for every validator, relayer pick, skyway queries, CheckTx and Simulate), memdb vs goleveldb. Per block the digests of (raw txs, per-tx code/data/gas/events, block events, app hash) are compared against the base twin. In the base twin every 40 blocks relayer pick, snapshot build, attestation processing and the consensus/evm/valset/skyway/metrix/paloma end-blockers are evaluated 25 times on forks of the same state (Go re-randomises map iteration per loop) and write-set digests + return values compared. " +
+		Rule: "each case is one seeded omnibus history (the C09 workload: bridge, jobs, pigeons, governance, hostile-but-accepted values, heights through 0 mod 10/50/300/303) executed by 4 (quick) / 6 (thorough) twin PROCESSES that differ only in: every environment variable the repository reads (names found by scanning os.Getenv/LookupEnv in the sources at check time) set vs unset plus TZ/GOMAXPROCS/GOGC/LANG, restarts of the application at random block boundaries, read-only traffic between blocks (queue queries for every validator, relayer pick, skyway queries, CheckTx and Simulate), memdb vs goleveldb. Per block the digests of (raw txs, per-tx code/data/gas/events, block events, app hash) are compared against the base twin. In the base twin every 40 blocks relayer pick, snapshot build, attestation processing and the consensus/evm/valset/skyway/metrix/paloma end-blockers are evaluated 25 times on forks of the same state (Go re-randomises map iteration per loop) and write-set digests + return values compared; one more site prepares, on the fork, evidence by a group holding EXACTLY two thirds of the snapshot shares (stake vectors with 3, 4 and 6 equal stakes make that possible) plus a dissenting rest for the first pending messages of every chain and then runs the attestation pass. " +
 			"evaluations = block comparisons + repeated evaluations; distinct_nontrivial = twin pairs compared + distinct (repeated-evaluation site, resulting state) pairs",
 		Assumptions: []string{
 			"the harness's own workload generator is deterministic (if two twins with identical digests so far produce different txs the run is INCONCLUSIVE, not a violation)",
